@@ -9,6 +9,7 @@ package main
 import (
 	"encoding/json"
 	"fmt"
+	"github.com/cocosip/go-dicom-codecs/verifhook"
 	"os"
 	"sort"
 	"strconv"
@@ -113,6 +114,26 @@ func main() {
 		for _, c := range p.Build(os.Args[3], seed) {
 			b, _ := json.Marshal(c)
 			fmt.Println(string(b))
+		}
+	case "hunt": // development aid: vcheck hunt <Cxx> <tier> <hook event> [gen]: runs the tier's cases serially and prints those that hit the verifhook event
+		p, ok := props.All[os.Args[2]]
+		if !ok {
+			os.Exit(2)
+		}
+		want := ""
+		if len(os.Args) > 5 {
+			want = "\"gen\":\"" + os.Args[5] + "\""
+		}
+		for _, c := range p.Build(os.Args[3], seed()) {
+			b, _ := json.Marshal(c)
+			if want != "" && !strings.Contains(string(b), want) {
+				continue
+			}
+			before := verifhook.Snapshot()[os.Args[4]]
+			r := mon.SafeExec(p, c)
+			if n := verifhook.Snapshot()[os.Args[4]] - before; n > 0 {
+				fmt.Printf("%d %s %s\n", n, r.V, string(b))
+			}
 		}
 	case "dumpseed":
 		props.DumpSeed(os.Args[2], os.Args[3])
